@@ -7,10 +7,11 @@ CANCEL_LABELS = ("kbd", "exit", "cancel", "genexit")
 
 
 class Op:
-    __slots__ = ("n", "label", "kind", "klass", "ra", "t0", "t1", "obj")
+    __slots__ = ("n", "label", "kind", "klass", "ra", "t0", "t1", "obj", "timeout")
 
     def __init__(self, rec):
         _, self.n, self.label, self.t0, self.t1, self.obj = rec
+        self.timeout = False
         lab = self.label
         if lab == "ok":
             self.kind, self.klass, self.ra = "ok", None, False
@@ -76,6 +77,16 @@ def split_calls(trace):
             cur.segs[-1].append(r)
         else:
             cur.pre.append(r)
+    for c in calls:
+        for i, op in enumerate(c.ops):
+            if op.label == "cut":
+                # an attempt cut short: by the attempt timeout (the library then classifies a
+                # TimeoutError) or by cancellation of the whole call
+                if any(r[0] == "classify" and r[1] == "foreign:TimeoutError" for r in c.segs[i]):
+                    op.kind, op.klass, op.label = "x", "T", "x:T"
+                    op.timeout = True
+                else:
+                    op.kind = "cancel"
     return calls
 
 
